@@ -558,6 +558,7 @@ func (c *Collection) expireDocuments() (count int64, err error) {
 	if err = rows.Err(); err != nil {
 		return
 	}
+	verifPoint("expire.betweenSelectAndDelete", c.bucket.name)
 
 	// Now delete each doc. (This has to be done after the above query finishes, because Delete()
 	// will get its own db connection, and if the db only supports one connection (i.e. in-memory)
@@ -614,9 +615,11 @@ func (c *Collection) withNewCas(fn func(txn *sql.Tx, newCas CAS) (*event, error)
 		if err != nil {
 			return err
 		}
+		verifPoint("cas.afterDocWrite", c.bucket.name)
 		return c.setLastCas(txn, newCas)
 	})
 	if err == nil && e != nil {
+		verifPoint("cas.beforePost", c.bucket.name)
 		c.postNewEvent(e)
 	}
 	return err
